@@ -419,6 +419,68 @@ fn run_fills<V: View>(mut v: V, ch: &mut Chooser, max_fills: usize, log: &mut Ve
     Ok((done, rl3))
 }
 
+/// The documented use of an `Uninit` view ("the uninitialized tail"): write k bytes at the START of
+/// `as_uninit()`, record them with `advance(k)`, and do it again -- every fill has to land right
+/// behind the previous one, and the root ends up as its previous content + the chunks in order.
+/// (The generic contract checked by `run_fills` writes at `as_uninit()[buf_len..]`; an `Uninit`
+/// view that has been filled once does not satisfy that one, see known_findings.json.)
+fn run_tail_append<V: View>(mut v: V, ch: &mut Chooser, max_fills: usize, log: &mut Vec<String>) -> Result<(usize, usize), Fail> {
+    let (rp, rl, rc) = v.root_mut().native();
+    let mut content = unsafe { std::slice::from_raw_parts(rp, rc) }.to_vec();
+    let fixed = rl == rc && <V::Root as RootBuf>::make(0, rc).is_none() && rc > 0;
+    let mut done = 0usize;
+    let fail = |o: &'static str, d: String, done: usize| Fail { oracle: o, detail: d, fills_done: done, last_rec: "advance" };
+    let start0 = (v.as_uninit().as_mut_ptr() as usize).wrapping_sub(rp as usize);
+    let mut cursor = start0;
+    while done < max_fills {
+        let (pu, lu) = {
+            let s = v.as_uninit();
+            (s.as_mut_ptr() as *mut u8, s.len())
+        };
+        let at = (pu as usize).wrapping_sub(rp as usize);
+        if lu > 0 && at != cursor {
+            return Err(fail("tail-append-region-did-not-move", format!("after {done} fill(s) the writable region starts at root+{at}, the previous fill ended at root+{cursor}"), done));
+        }
+        if at + lu > rc {
+            return Err(fail("tail-append-region-outside-root", format!("writable region root+{at}..+{lu} exceeds the allocation of {rc}"), done));
+        }
+        let c = ch.pick(lu + 2);
+        if c == 0 {
+            break;
+        }
+        let k = c - 1;
+        for j in 0..k {
+            let b = 0x10u8 * (done as u8 + 1) + j as u8;
+            unsafe { pu.add(j).write(b) };
+            content[at + j] = b;
+        }
+        unsafe { v.advance(k) };
+        log.push(format!("write {k} at as_uninit()[0..], advance({k})@root+{at}"));
+        cursor = at + k;
+        done += 1;
+    }
+    let mut root = v.unwrap_root();
+    let (rp3, rl3, rc3) = root.native();
+    let all = unsafe { std::slice::from_raw_parts(rp3, rc3) }.to_vec();
+    let want_len = if fixed { rc } else if cursor > start0 { rl.max(cursor) } else { rl };
+    root.dispose();
+    if rc3 != rc || all != content {
+        return Err(fail("tail-append-root-content", format!("root bytes {all:02x?}, expected {content:02x?}"), done));
+    }
+    if rl3 < rl && cursor == start0 {
+        // only zero-length fills were recorded, yet the root lost initialized bytes
+        return Err(fail(
+            "zero-length-record-truncates-root",
+            format!("root length {rl3} (was {rl}) after recording 0 bytes through the view: `advance(0)` = `set_len(buf_len())` is not a no-op when the view ends before the root's initialized length"),
+            done,
+        ));
+    }
+    if rl3 != want_len {
+        return Err(fail("tail-append-root-length", format!("root length {rl3} after appending up to root+{cursor}, expected {want_len}"), done));
+    }
+    Ok((done, rl3))
+}
+
 // ------------------------------------------------------------------------------------------
 // type-level depth recursion over view constructors
 // ------------------------------------------------------------------------------------------
@@ -463,6 +525,31 @@ fn explore_here<V: View>(mk: &dyn Fn() -> V, shape: &str, path: &str, cx: &Ctx) 
                     replay: json!({"engine":"e2pure/C10","root":root,"view":path,"choices":ch.choices(),"fills":log}),
                 });
             }
+        }
+        true
+    });
+    cx.rep.add_states(st.executions);
+    if !shape.ends_with(".uninit") {
+        return;
+    }
+    // outermost view is an uninitialized-tail view: its own convention, repeated fills
+    let st = vcore::explore(u32::MAX, u64::MAX, |ch| {
+        let v = mk();
+        let mut log = Vec::new();
+        let r = vcore::catch(|| run_tail_append(v, ch, cx.max_fills + 1, &mut log));
+        cx.rep.add_execution(log.len() as u64 + 1);
+        match r {
+            Ok(Ok((n, rl))) => cx.rep.outcome(format!("{shape}|tail-append={n}|rootlen={rl}")),
+            Ok(Err(f)) => cx.rep.violation(Violation {
+                key: format!("{}:{}:{}:{}", f.oracle, shape, if f.fills_done == 0 { "static" } else { "after-fill" }, root),
+                what: format!("view {path}, tail-append fills {log:?}: {}", f.detail),
+                replay: json!({"engine":"e2pure/C10","root":root,"view":path,"mode":"tail-append","choices":ch.choices(),"fills":log}),
+            }),
+            Err(p) => cx.rep.violation(Violation {
+                key: format!("panic:{shape}:{}:{root}", if log.is_empty() { "static" } else { "after-fill" }),
+                what: format!("view {path}, tail-append fills {log:?}: panic {p}"),
+                replay: json!({"engine":"e2pure/C10","root":root,"view":path,"mode":"tail-append","choices":ch.choices(),"fills":log}),
+            }),
         }
         true
     });
